@@ -122,32 +122,32 @@ Lemma step_send_is_wbio : forall m b s p l s' p' a w,
 Proof.
   intros m b s p l s' p' a w H Hin.
   destruct p as [ | k | k | | | r]; destruct l as [x | | t]; cbv beta iota delta [step] in H; try discriminate.
-  - destruct (negb _); [inversion H; subst; destruct Hin as [X | []]; discriminate |].
+  - destruct (negb _); [inversion H; subst; cbn in Hin; intuition discriminate |].
     cbv zeta in H. destruct (a_out x).
-    + destruct m; try (inversion H; subst; destruct Hin; fail).
+    + destruct m; try (inversion H; subst; cbn in Hin; intuition discriminate; fail).
       match type of H with context [match ?d with [] => Some _ | _ :: _ => Some _ end] => destruct d end;
-        inversion H; subst; destruct Hin.
-    + inversion H; subst; destruct Hin.
-    + inversion H; subst; destruct Hin.
-    + inversion H; subst. destruct Hin as [X | [X | []]]; discriminate.
-    + inversion H; subst; destruct Hin.
-    + inversion H; subst; destruct Hin.
+        inversion H; subst; cbn in Hin; intuition discriminate.
+    + inversion H; subst; cbn in Hin; intuition discriminate.
+    + inversion H; subst; cbn in Hin; intuition discriminate.
+    + inversion H; subst. cbn in Hin; intuition discriminate.
+    + inversion H; subst; cbn in Hin; intuition discriminate.
+    + inversion H; subst; cbn in Hin; intuition discriminate.
   - unfold go in H. destruct (send_lock s); try discriminate.
     destruct (wbio s) as [| w0 w'] eqn:Ew.
-    + destruct k; inversion H; subst; try (destruct Hin; fail).
+    + destruct k; inversion H; subst; try (cbn in Hin; intuition discriminate; fail).
       destruct Hin as [X | []]. inversion X; subst. cbn. auto.
     + inversion H; subst. destruct Hin as [X | []]. inversion X; subst. cbn. auto.
-  - destruct t; inversion H; subst; destruct Hin.
+  - destruct t; inversion H; subst; cbn in Hin; intuition discriminate.
   - destruct t as [d | | | | bt]; try discriminate; cbv zeta in H.
-    + inversion H; subst; destruct Hin.
-    + destruct k; inversion H; subst; destruct Hin as [X | [X | []]]; try discriminate; destruct X.
-    + inversion H; subst; destruct Hin.
-  - unfold go in H. destruct (recv_lock s); inversion H; subst. destruct Hin as [X | []]; discriminate.
-  - destruct t; inversion H; subst; destruct Hin.
+    + inversion H; subst; cbn in Hin; intuition discriminate.
+    + destruct k; inversion H; subst; cbn in Hin; intuition discriminate.
+    + inversion H; subst; cbn in Hin; intuition discriminate.
+  - unfold go in H. destruct (recv_lock s); inversion H; subst. cbn in Hin; intuition discriminate.
+  - destruct t; inversion H; subst; cbn in Hin; intuition discriminate.
   - destruct t as [d | | | | bt]; try discriminate; cbv zeta in H.
-    + destruct d; inversion H; subst; destruct Hin as [X | []]; discriminate.
-    + inversion H; subst. destruct Hin as [X | [X | []]]; discriminate.
-    + inversion H; subst; destruct Hin.
+    + destruct d; inversion H; subst; cbn in Hin; intuition discriminate.
+    + inversion H; subst. cbn in Hin; intuition discriminate.
+    + inversion H; subst; cbn in Hin; intuition discriminate.
 Qed.
 
 (* ---- no deadlock by construction of the WANT_READ branch: the flush comes before the read ---- *)
@@ -166,8 +166,7 @@ Proof.
   - unfold go in H. destruct (send_lock s); try discriminate.
     destruct (wbio s) as [| w0 w'] eqn:Ew.
     + destruct k; cbn in H; try (inversion H; fail).
-      * inversion H; subst. left; auto.
-      * unfold pcall in H. destruct m; try (inversion H; fail). destruct (deque s); inversion H.
+      inversion H; subst. left; auto.
     + inversion H.
   - destruct t; inversion H.
   - destruct t as [d | | | | bt]; try discriminate; cbv zeta in H.
@@ -176,13 +175,10 @@ Proof.
       * unfold pcall in H. destruct m; try (inversion H; fail). destruct (deque _); inversion H.
       * inversion H.
     + destruct k; inversion H.
-    + inversion H.
   - unfold go in H. destruct (recv_lock s); inversion H.
   - destruct t; inversion H.
   - destruct t as [d | | | | bt]; try discriminate; cbv zeta in H.
-    + destruct d; inversion H as [[H1 H2 H3]]; unfold pcall in H2; destruct m; try discriminate; destruct (deque _); discriminate.
-    + inversion H.
-    + inversion H.
+    destruct d; inversion H as [[H1 H2 H3]]; unfold pcall in H2; destruct m; try discriminate; destruct (deque _); discriminate.
 Qed.
 
 (* recv_into is started only from "waiting to read" *)
@@ -191,31 +187,31 @@ Lemma recv_only_from_recvwait : forall m b s p l s' p' a,
 Proof.
   intros m b s p l s' p' a H Hin.
   destruct p as [ | k | k | | | r]; destruct l as [x | | t]; cbv beta iota delta [step] in H; try discriminate.
-  - destruct (negb _); [inversion H; subst; destruct Hin as [X | []]; discriminate |].
+  - destruct (negb _); [inversion H; subst; cbn in Hin; intuition discriminate |].
     cbv zeta in H. destruct (a_out x).
-    + destruct m; try (inversion H; subst; destruct Hin; fail).
+    + destruct m; try (inversion H; subst; cbn in Hin; intuition discriminate; fail).
       match type of H with context [match ?d with [] => Some _ | _ :: _ => Some _ end] => destruct d end;
-        inversion H; subst; destruct Hin.
-    + inversion H; subst; destruct Hin.
-    + inversion H; subst; destruct Hin.
-    + inversion H; subst. destruct Hin as [X | [X | []]]; discriminate.
-    + inversion H; subst; destruct Hin.
-    + inversion H; subst; destruct Hin.
+        inversion H; subst; cbn in Hin; intuition discriminate.
+    + inversion H; subst; cbn in Hin; intuition discriminate.
+    + inversion H; subst; cbn in Hin; intuition discriminate.
+    + inversion H; subst. cbn in Hin; intuition discriminate.
+    + inversion H; subst; cbn in Hin; intuition discriminate.
+    + inversion H; subst; cbn in Hin; intuition discriminate.
   - unfold go in H. destruct (send_lock s); try discriminate.
     destruct (wbio s) as [| w0 w'].
-    + destruct k; inversion H; subst; try (destruct Hin; fail). destruct Hin as [X | []]; discriminate.
-    + inversion H; subst. destruct Hin as [X | []]; discriminate.
-  - destruct t; inversion H; subst; destruct Hin.
+    + destruct k; inversion H; subst; cbn in Hin; intuition discriminate.
+    + inversion H; subst. cbn in Hin; intuition discriminate.
+  - destruct t; inversion H; subst; cbn in Hin; intuition discriminate.
   - destruct t as [d | | | | bt]; try discriminate; cbv zeta in H.
-    + inversion H; subst; destruct Hin.
-    + destruct k; inversion H; subst; destruct Hin as [X | [X | []]]; try discriminate; destruct X.
-    + inversion H; subst; destruct Hin.
+    + inversion H; subst; cbn in Hin; intuition discriminate.
+    + destruct k; inversion H; subst; cbn in Hin; intuition discriminate.
+    + inversion H; subst; cbn in Hin; intuition discriminate.
   - unfold go in H. destruct (recv_lock s); inversion H; subst. auto.
-  - destruct t; inversion H; subst; destruct Hin.
+  - destruct t; inversion H; subst; cbn in Hin; intuition discriminate.
   - destruct t as [d | | | | bt]; try discriminate; cbv zeta in H.
-    + destruct d; inversion H; subst; destruct Hin as [X | []]; discriminate.
-    + inversion H; subst. destruct Hin as [X | [X | []]]; discriminate.
-    + inversion H; subst; destruct Hin.
+    + destruct d; inversion H; subst; cbn in Hin; intuition discriminate.
+    + inversion H; subst. cbn in Hin; intuition discriminate.
+    + inversion H; subst; cbn in Hin; intuition discriminate.
 Qed.
 
 (* WANT_READ with pending ciphertext and a free send lock: the very next thing the task does is send_all(everything
@@ -229,7 +225,9 @@ Lemma wantread_flushes_first : forall m b s x,
     wbio s2 = [].
 Proof.
   intros m b s x Hm Ha Ho Hl Hne.
-  eexists. eexists. split; [| split].
+  exists (set_wbio s (wbio s ++ a_wdelta x)).
+  exists (set_send_lock (set_wbio (set_wbio s (wbio s ++ a_wdelta x)) []) true).
+  split; [| split].
   - unfold step. rewrite Hm, Ha, Ho.
     replace (meth_eqb m m) with true by (destruct m; reflexivity). rewrite Nat.eqb_refl. cbn. reflexivity.
   - unfold settle. cbn [settle_n go send_lock set_wbio wbio]. rewrite Hl.
